@@ -688,6 +688,60 @@ def clause12_crypt_failure_token(ctx, P):
                ("NULL and the failure token" if not okn and not oks else "NULL" if not okn else "the failure token (first character '*')"))
 
 
+def clause13_formatted_print_accounts_for_what_it_writes(ctx, P):
+    """the credential file is the only thing cjet prints formatted (cJSON_Print in write_user_data): print_object() reserves room,
+    writes bytes through a local cursor and then advances the buffer offset by a length computed separately.  A byte that is written
+    only under some condition is counted under the same condition: every test that guards such a store (beyond what guards the
+    offset update itself) is one of the conditions the length expression selects on.  Otherwise the offset runs ahead of the bytes
+    written, an unwritten byte (0) ends up inside the text, and the file that is renamed into place is cut there - unloadable"""
+    f = P.fn("cJSON.c:print_object")
+    ups = [i for i in f.all_insts() if i.op == "store" and P.term(f, i.a[1])[0] == "field" and P.term(f, i.a[1])[2] == "struct.printbuffer"
+           and P.term(f, i.a[0])[0] == "op" and P.term(f, i.a[0])[1] == "add" and
+           Q.mentions(P.term(f, i.a[0]), lambda x: x[0] == "select")]
+    if len(ups) < 2:
+        raise AnalysisBroken("print_object: offset updates with a selected length found: %d" % len(ups))
+    offs = P.term(f, ups[0].a[1])[3]
+    delim = [i for i in f.all_insts() if (i.op == "store" and P.term(f, i.a[1])[0] == "field" and P.term(f, i.a[1])[2] == "struct.printbuffer"
+                                          and P.term(f, i.a[1])[3] == offs) or
+             (i.op == "call" and i.callee and P.srcname_of(i.callee) in ("ensure", "update_offset"))]
+    bad = None
+    n = 0
+    for u in ups:
+        conds = set()
+        for x in Q.subterms(P.term(f, u.a[0])):
+            if x[0] == "select":
+                conds.add(x[1])
+        base = set(a for (a, p) in Q.guards_of(P, f, u.block))
+        # byte stores between the reservation and this update: blocks that reach the update without passing another update
+        for i in f.all_insts():
+            if i.op != "store":
+                continue
+            d = P.term(f, i.a[1])
+            if d[0] == "field":
+                continue
+            # the store belongs to this update: no other update / reservation lies between them
+            if i.block == u.block:
+                if i.id > u.id or any(x.block == u.block and i.id < x.id < u.id for x in delim):
+                    continue
+            else:
+                if any(x.block == i.block and x.id > i.id for x in delim) or any(x.block == u.block and x.id < u.id for x in delim):
+                    continue
+                others = {x.block for x in delim} - {i.block, u.block}
+                if u.block not in f.reachable(i.block, removed_blocks=others):
+                    continue
+            extra = [a for (a, p) in Q.guards_of(P, f, i.block) if a not in base]
+            n += 1
+            for a in extra:
+                key = ("cmp",) + tuple(a[1:]) if a[0] == "cmp" else a
+                if not any(c == a or (c[0] == "cmp" and a[0] == "truth" and c[2] == a[1]) or
+                           (a[0] == "cmp" and c[0] == "cmp" and c[2] == a[2] and c[3] == a[3]) for c in conds) and bad is None:
+                    bad = (i, a, u)
+    ctx.ob("C20.3 R-PAIR", f, "conditional-bytes-are-counted-under-the-same-condition", bad is None and n >= 2,
+           ("print_object() writes a byte at %s only under %s, but the offset update at %s counts it regardless: the formatted text gets "
+            "an unwritten byte inside - the credential file written from it is cut there and cannot be loaded any more" %
+            (bad[0].loc, fmt_atom(bad[1], True), bad[2].loc)) if bad else "%d conditional byte stores, each counted under its condition" % n)
+
+
 def run(ctx):
     for cfg in ctx.configs(["default"] if ctx.tier == "quick" else None):
         P, cg = cfg.P, cfg.cg
@@ -699,6 +753,7 @@ def run(ctx):
         clause10_commit_and_salt(ctx, P, cg)
         clause11_write_progress(ctx, P)
         clause12_crypt_failure_token(ctx, P)
+        clause13_formatted_print_accounts_for_what_it_writes(ctx, P)
         clause2_atomic(ctx, P, cg)
         clause3_write(ctx, P, cg)
         clause4_effective(ctx, P, cg)
